@@ -1,6 +1,7 @@
 package main
 
 import (
+	"encoding/json"
 	"fmt"
 	"os"
 	"path/filepath"
@@ -80,10 +81,167 @@ func replayRace(p *Prop, path, engine string, knobs map[string]string, env []str
 	return 0
 }
 
+type xexpr struct {
+	Feat   string `json:"feat"`
+	Src    string `json:"src"`
+	Out    string `json:"out"`
+	Repr   string `json:"repr"`
+	Err    bool   `json:"err"`
+	Stable bool   `json:"stable"`
+	Text   string `json:"text"`
+}
+
+func xexprs(r *Result) (lets string, es []xexpr, order string) {
+	if r.Out == nil {
+		return
+	}
+	b, _ := json.Marshal(r.Out["exprs"])
+	json.Unmarshal(b, &es)
+	lets, _ = r.Out["lets"].(string)
+	order, _ = r.Out["order"].(string)
+	return
+}
+
+// xcompare compares one run's results under several hash seeds; it returns one violating Result per feature.
+func xcompare(p *Prop, rs []*Result) []*Result {
+	var out []*Result
+	base := rs[0]
+	lets, e0, _ := xexprs(base)
+	seen := map[string]bool{}
+	for i := range e0 {
+		for _, r := range rs[1:] {
+			_, ei, _ := xexprs(r)
+			if i >= len(ei) {
+				continue
+			}
+			a, b := e0[i], ei[i]
+			var sig, why string
+			switch {
+			case !a.Stable || !b.Stable:
+				sig, why = "C07/same-seed/"+a.Feat, "two evaluations in ONE process printed different bytes (Go map order or fastrand dependence; reproduces statistically)"
+			case a.Err != b.Err:
+				sig, why = "C07/value-vs-error/"+a.Feat, "one hash seed yields a value, the other an error"
+			case !a.Err && (a.Out != b.Out || a.Repr != b.Repr):
+				sig, why = "C07/"+a.Feat, "printed output differs between hash seeds"
+			default:
+				continue
+			}
+			if seen[sig] {
+				continue
+			}
+			seen[sig] = true
+			v := *base
+			v.V = &Violation{Oracle: "same-output-under-every-hash-seed", Sig: sig,
+				Msg: fmt.Sprintf("%s\n  expression: %s\n  hash seed %d prints: %s\n  hash seed %d prints: %s\n  bases: %s", why, a.Src, base.HashSeed, strings.TrimSpace(a.Text), r.HashSeed, strings.TrimSpace(b.Text), lets)}
+			v.Out = map[string]any{"expr_index": i, "expr": a.Src, "feat": a.Feat, "hash_seed_a": base.HashSeed, "hash_seed_b": r.HashSeed, "out_a": a.Text, "out_b": b.Text}
+			out = append(out, &v)
+		}
+	}
+	return out
+}
+
 func runXSeed(p *Prop, b *Batch, n int, verifSeed uint64, a *agg, lanes int, tier string, deadline time.Time) {
-	fmt.Println("xseed: not built yet")
+	k := b.XSeedK[0]
+	if tier == "thorough" {
+		k = b.XSeedK[1]
+	}
+	if k < 2 {
+		k = 2
+	}
+	groups := lanes / k
+	if groups < 1 {
+		groups = 1
+	}
+	var wg sync.WaitGroup
+	for g := 0; g < groups; g++ {
+		wg.Add(1)
+		go func(g int) {
+			defer wg.Done()
+			ws := make([]*Worker, k)
+			for j := range ws {
+				hs := mix(verifSeed, "xseed/"+b.Name, uint64(g*k+j))%1000000007 + 1
+				ws[j] = newWorker(workerBin(b), hs, b.Env, timeoutOf(b))
+				defer ws[j].stop()
+			}
+			for run := g; run < n; run += groups {
+				if time.Now().After(deadline) {
+					return
+				}
+				seed := mix(verifSeed, p.ID+"/"+b.Name, uint64(run))
+				rs := make([]*Result, k)
+				var wg2 sync.WaitGroup
+				for j := range ws {
+					wg2.Add(1)
+					go func(j int) {
+						defer wg2.Done()
+						rs[j] = ws[j].Do(Request{ID: int64(run), Engine: b.Engine, Seed: seed, Knobs: b.Knobs})
+					}(j)
+				}
+				wg2.Wait()
+				bad := false
+				for _, r := range rs {
+					if r.Crashed {
+						kind, frame := crashFrame(r.Stderr)
+						r.V = &Violation{Oracle: "no-crash", Sig: p.ID + "/" + kind + "/" + frame, Msg: "worker process died during the run:\n" + tail(r.Stderr, 1500)}
+						r.Engine = b.Engine
+						a.add(b, r)
+						bad = true
+					} else if r.Infra != "" {
+						a.add(b, r)
+						bad = true
+					}
+				}
+				if bad {
+					continue
+				}
+				for _, r := range rs {
+					_, _, order := xexprs(r)
+					a.mu.Lock()
+					a.states["order:"+order] = struct{}{}
+					a.probes["evaluations-under-one-seed"]++
+					a.mu.Unlock()
+				}
+				vs := xcompare(p, rs)
+				first := *rs[0]
+				first.Out = nil
+				a.add(b, &first)
+				for _, v := range vs {
+					v.Nontrivial = false
+					a.mu.Lock()
+					v.Batch = b.Name
+					a.vcount[v.V.Sig]++
+					if _, ok := a.violations[v.V.Sig]; !ok {
+						a.violations[v.V.Sig] = v
+					}
+					a.mu.Unlock()
+				}
+			}
+		}(g)
+	}
+	wg.Wait()
 }
 
 func replayXSeed(p *Prop, path, engine string, knobs map[string]string, tp []uint64, out map[string]any, sig string) int {
-	return 2
+	ha, _ := out["hash_seed_a"].(float64)
+	hb, _ := out["hash_seed_b"].(float64)
+	b := &Batch{Engine: engine, Knobs: knobs}
+	var rs []*Result
+	for _, hs := range []uint64{uint64(ha), uint64(hb)} {
+		w := newWorker(workerBin(b), hs, nil, 300*time.Second)
+		r := w.Do(Request{ID: 1, Engine: engine, Tape: tp, Replay: true, Knobs: knobs, Verbose: true})
+		w.stop()
+		if r.Infra != "" || r.Crashed {
+			fmt.Fprintln(os.Stderr, "INFRA:", r.Infra, tail(r.Stderr, 500))
+			return 2
+		}
+		rs = append(rs, r)
+	}
+	for _, v := range xcompare(p, rs) {
+		if v.V.Sig == sig {
+			fmt.Printf("VIOLATION property=%s replay=%s\n  signature: %s (same signature)\n  %s\n", p.ID, path, v.V.Sig, strings.ReplaceAll(v.V.Msg, "\n", "\n  "))
+			return 1
+		}
+	}
+	fmt.Printf("replay: no violation reproduced (expected %s)\n", sig)
+	return 0
 }
